@@ -882,9 +882,22 @@ impl<const N: usize> SubscriptionsInner<N> {
     ) where
         B: Buffers<IMBuffer> + 'a,
     {
-        // Always clear the reporting slot; it was populated in `report()`.
-        self.reporting = None;
-        let cancelled = self.reporting_cancelled.take();
+        // Only the subscription handed out by `report()` occupies the reporting
+        // slot. A priming context (created by `add()`) that completes while a
+        // report is in flight must leave the slot - and a cancellation requested
+        // for the subscription in it - alone.
+        let is_reporting = self
+            .reporting
+            .as_ref()
+            .map(|reporting| reporting.ids.id == sub.ids.id)
+            .unwrap_or(false);
+
+        let cancelled = if is_reporting {
+            self.reporting = None;
+            self.reporting_cancelled.take()
+        } else {
+            None
+        };
 
         if let Some(reason) = cancelled {
             info!(
